@@ -211,10 +211,17 @@ class QuotientFilter:
             int: The next hash stored in the quotient filter"""
         queue: List[int] = []
 
-        # find first empty location
+        # find first empty location; a completely full filter has none, so begin at a cluster start instead
         start = 0
-        while not self._is_empty_element(start):
-            start += 1
+        for i in range(self._size):
+            if self._is_empty_element(i):
+                start = i
+                break
+        else:
+            for i in range(self._size):
+                if self._is_cluster_start(i):
+                    start = i
+                    break
 
         cur_quot = 0
         for i in range(start, self._size + start):  # this will allow for wrap-arounds
